@@ -307,12 +307,12 @@ type vCand struct {
 // vEligible computes the model's eligible candidates for a query. boundary reports
 // that some candidate lies within tolerance of the threshold while the arithmetic is
 // not exact (the query is then not judged).
-func vEligible(metric DistanceKind, live map[uint32][]float32, q vVecQuery, scoreOf func(id uint32, v []float32) float64) (cands []vCand, boundary bool) {
+func vEligible(metric DistanceKind, live map[uint32][]float32, q vVecQuery, crisp bool, scoreOf func(id uint32, v []float32) float64) (cands []vCand, boundary bool) {
 	restrict := map[uint32]bool{}
 	for _, id := range q.IDs {
 		restrict[id] = true
 	}
-	exact := metric != Cosine && vAllInts(q.Q)
+	exact := crisp && metric != Cosine && vAllInts(q.Q)
 	for id, v := range live {
 		if len(restrict) > 0 && !restrict[id] {
 			continue
